@@ -19,6 +19,7 @@ import (
 	"encoding/json"
 	"fmt"
 	"io"
+	"log/slog"
 	"io/fs"
 	"net/http"
 	"net/http/httptest"
@@ -60,6 +61,7 @@ type aConf struct {
 	FreqMS     int64    `json:"freq_ms"`   // 0 => -1 (ticker off)
 	FreqUS     int64    `json:"freq_us"`   // ticker period in microseconds (overrides freq_ms)
 	UploadMax  int      `json:"uploadmax"` // 0 = default
+	DebugLog   bool     `json:"debuglog"`  // a logger that formats every record (debug level) and throws the text away
 	PageExpMS  int64    `json:"pageexp_ms"`
 	PageLimit  int      `json:"pagelimit"`
 	Root       string   `json:"root"` // sub-directory name under the case directory ("" = "root")
@@ -100,6 +102,89 @@ type aStep struct {
 	Mid       []aStep                `json:"mid"`        // executed after Split bytes of the body have been read by the handler
 	Split     int                    `json:"split"`
 }
+
+// hookStore / hookRepo / hookBC wrap the store of the server for one request (op "hooked"): every store action of the request is
+// a point at which other steps can be run.
+type hookStore struct {
+	store.Store
+	e    *aEnv
+	at   int
+	mid  []aStep
+	n    int
+	busy bool
+	log  []string
+	out  []aRes
+}
+
+func (h *hookStore) point(label string) {
+	if h.busy {
+		return
+	}
+	h.n++
+	h.log = append(h.log, label)
+	if h.n == h.at {
+		h.busy = true
+		for _, m := range h.mid {
+			h.out = append(h.out, h.e.step(m, -1))
+		}
+		h.busy = false
+	}
+}
+
+func (h *hookStore) RepoGet(ctx context.Context, name string) (store.Repo, error) {
+	if h.busy {
+		return h.Store.RepoGet(ctx, name)
+	}
+	h.point("RepoGet " + name)
+	r, err := h.Store.RepoGet(ctx, name)
+	if err != nil {
+		return r, err
+	}
+	return &hookRepo{Repo: r, h: h}, nil
+}
+
+type hookRepo struct {
+	store.Repo
+	h *hookStore
+}
+
+func (r *hookRepo) IndexGet() (types.Index, error) { r.h.point("IndexGet"); return r.Repo.IndexGet() }
+func (r *hookRepo) IndexInsert(d types.Descriptor, opts ...types.IndexOpt) error {
+	r.h.point("IndexInsert")
+	return r.Repo.IndexInsert(d, opts...)
+}
+func (r *hookRepo) IndexRemove(d types.Descriptor) error { r.h.point("IndexRemove"); return r.Repo.IndexRemove(d) }
+func (r *hookRepo) BlobGet(d digest.Digest) (io.ReadSeekCloser, error) {
+	r.h.point("BlobGet")
+	return r.Repo.BlobGet(d)
+}
+func (r *hookRepo) BlobDelete(d digest.Digest) error { r.h.point("BlobDelete"); return r.Repo.BlobDelete(d) }
+func (r *hookRepo) BlobCreate(opts ...store.BlobOpt) (store.BlobCreator, string, error) {
+	r.h.point("BlobCreate")
+	bc, id, err := r.Repo.BlobCreate(opts...)
+	if err != nil || bc == nil {
+		return bc, id, err
+	}
+	return &hookBC{BlobCreator: bc, h: r.h}, id, nil
+}
+func (r *hookRepo) BlobSession(id string) (store.BlobCreator, error) {
+	r.h.point("BlobSession")
+	bc, err := r.Repo.BlobSession(id)
+	if err != nil || bc == nil {
+		return bc, err
+	}
+	return &hookBC{BlobCreator: bc, h: r.h}, nil
+}
+func (r *hookRepo) Done() { r.h.point("Done"); r.Repo.Done() }
+
+type hookBC struct {
+	store.BlobCreator
+	h *hookStore
+}
+
+func (b *hookBC) Close() error                 { b.h.point("bc.Close"); return b.BlobCreator.Close() }
+func (b *hookBC) Cancel() error                { b.h.point("bc.Cancel"); return b.BlobCreator.Cancel() }
+func (b *hookBC) Verify(d digest.Digest) error { b.h.point("bc.Verify"); return b.BlobCreator.Verify(d) }
 
 // splitReader delivers data[:split], then runs fn (other requests, while the handler
 // of this request is waiting for more body), then delivers the rest.
@@ -394,6 +479,9 @@ func (e *aEnv) mkConf() config.Config {
 		cf.Storage.GC.Frequency = time.Duration(c.FreqUS) * time.Microsecond
 	}
 	cf.Storage.GC.RepoUploadMax = c.UploadMax
+	if c.DebugLog {
+		cf.Log = slog.New(slog.NewTextHandler(io.Discard, &slog.HandlerOptions{Level: slog.LevelDebug}))
+	}
 	return cf
 }
 
@@ -687,6 +775,19 @@ func (e *aEnv) step(st aStep, idx int) (res aRes) {
 				}(s2)
 			}
 		}
+	case "hooked":
+		// the request runs with the store wrapped: before its N-th store action (N > 0) the steps in Mid run - reads by other
+		// clients while this request stands between two of its store actions; Names lists the actions the request performed
+		inner := e.s.store
+		h := &hookStore{Store: inner, e: e, at: st.N, mid: st.Mid}
+		e.s.store = h
+		cur := st
+		cur.Op, cur.Mid = "http", nil
+		r := e.doHTTP(cur, idx)
+		e.s.store = inner
+		res = r
+		res.Names = h.log
+		res.Par = [][]aRes{h.out}
 	case "refpages":
 		// GET st.Path (a referrers listing), then ask for the pages st.Names of exactly that response: cache=<digest of the body>
 		cur := st
